@@ -293,6 +293,25 @@ impl<K: Eq + Hash + Ord + Clone, V> HashIndex<K, V> {
         removed
     }
 
+    /// See [`scc::HashIndex::remove_if_sync`].
+    pub fn remove_if_sync<F: FnOnce(&V) -> bool>(&self, key: &K, condition: F) -> bool {
+        self.step("index.remove");
+        let removed = match &self.real {
+            Some(real) => real.remove_if_sync(key, condition),
+            None => {
+                let mut model = self.model.lock().expect("model lock");
+                let matches = model.map.get(key).is_some_and(|value| condition(value));
+                if matches {
+                    let value = model.map.remove(key).expect("checked above");
+                    model.limbo.push(value);
+                }
+                matches
+            }
+        };
+        verif::sched_point("index.removed");
+        removed
+    }
+
     /// Drops the values of removed entries, as scc's garbage collection does at some later time.
     /// Returns how many were released.
     pub fn verif_collect(&self) -> usize {
